@@ -23,7 +23,7 @@ def check_scalar(case):
     import hszinc
     m, ver = case['value'], case['ver']
     v = model.from_model(m)
-    txt = guarded('dump-raises', case, hszinc.dump_scalar, v, mode=hszinc.MODE_ZINC, version=hszinc.Version(ver))
+    txt = guarded('dump-raises', case, hszinc.dump_scalar, v, mode=rt._mode('zinc', len(repr(m))), version=(hszinc.Version(ver) if len(repr(m)) % 3 else ver))
     try:
         back, r = zinc_ref.read_scalar(txt, ver)
     except zinc_ref.ZincRefError as e:
@@ -40,7 +40,7 @@ def check_doc(case):
     import hszinc
     ms = case['grids']
     gs = [model.from_model(m) for m in ms]
-    txt = guarded('dump-raises', case, hszinc.dump, gs[0] if case['single'] else gs, mode=hszinc.MODE_ZINC)
+    txt = rt.dump_doc(case, gs, case['single'], 'zinc', len(repr(ms)))
     try:
         back, r = zinc_ref.read_document(txt)
     except zinc_ref.ZincRefError as e:
